@@ -568,7 +568,7 @@ def _ramps(check, repo: Repo) -> None:
         k = KAT(fn, seeds=seeds, image_like=("ar", "im_meas", "F_im"), index_axes={"im_meas": {0: ROW, 1: COL}, "F_im": {0: ROW, 1: COL}}).run()
         for n, msg in k.clashes:
             check.violated("C16-R7", f"{label}: axis clash `{unparse(n)[:60]}`", msg + " — integer shifts are no longer exact circular rolls on non-square arrays",
-                           m.line(n))
+                           m.line(n), definite=True)
         if not k.clashes:
             check.holds("C16-R7", f"{label}: each frequency vector meets the shift component, extent and array axis of its own direction", where=m.line(fn))
     check.floor("translation ramps", n_ramps, 6)
